@@ -372,7 +372,10 @@ fn sweep<T: SeedSubject>(info: &TypeInfo, kind: Option<Kind>, job: &SweepJob) ->
                             continue; // the all-zero seed is remapped: C08's business
                         }
                         n += 1;
-                        let mut g = T::from_seed(mk_seed::<T>(&seed));
+                        let seed_ref = &seed;
+                        let verdict: Result<Option<String>, ()> = std::panic::catch_unwind(std::panic::AssertUnwindSafe(|| {
+                        let seed = seed_ref;
+                        let mut g = T::from_seed(mk_seed::<T>(seed));
                         let (exp, succ): (u64, Vec<u8>) = if is_xs {
                             let mut s = refmodels::xor128::state_from_seed(&seed);
                             let r = refmodels::xor128::step(&mut s);
@@ -406,6 +409,12 @@ fn sweep<T: SeedSubject>(info: &TypeInfo, kind: Option<Kind>, job: &SweepJob) ->
                                 bad = Some("successor state != reference successor".to_string());
                             }
                         }
+                        bad
+                        })).map_err(|_| ());
+                        let bad = match verdict {
+                            Ok(b) => b,
+                            Err(()) => Some("the crate panicked on this input".to_string()),
+                        };
                         if let Some(b) = bad {
                             stop.store(true, Ordering::Relaxed);
                             let mut f = failure.lock().unwrap();
@@ -448,6 +457,7 @@ fn sweep<T: SeedSubject>(info: &TypeInfo, kind: Option<Kind>, job: &SweepJob) ->
                     for v in c * CHUNK..((c + 1) * CHUNK).min(total) {
                         let x = (base & !mask) | (v << shift);
                         n += 1;
+                        let verdict: Result<Option<String>, ()> = std::panic::catch_unwind(std::panic::AssertUnwindSafe(|| {
                         let g = T::seed_from_u64(x);
                         let mut bad = None;
                         if *check_expansion && g.s_eq(&T::from_seed(mk_seed::<T>(&expansion(x, len)))) != Some(true) {
@@ -457,6 +467,12 @@ fn sweep<T: SeedSubject>(info: &TypeInfo, kind: Option<Kind>, job: &SweepJob) ->
                                 bad = Some("seed_from_u64(x) is the all-zero state".to_string());
                             }
                         }
+                        bad
+                        })).map_err(|_| ());
+                        let bad = match verdict {
+                            Ok(b) => b,
+                            Err(()) => Some("the crate panicked on this input".to_string()),
+                        };
                         if let Some(b) = bad {
                             stop.store(true, Ordering::Relaxed);
                             let mut f = failure.lock().unwrap();
